@@ -331,4 +331,44 @@ theorem fadLoop_parses (b : Bytes) (hb : PushPat b) (idx : Nat) (s : Bytes) :
           rw [rawIterFrom_op hr, ← hr']
           exact ih he _
 
+/-! ### `FindAndDelete` never lengthens the script -/
+
+theorem fadLoop_length_le (b : Bytes) (n : Nat) : ∀ s : Bytes, s.length ≤ n → (Ref.fadLoop b s).length ≤ s.length := by
+  induction n with
+  | zero =>
+    intro s hs
+    have : s = [] := List.eq_nil_of_length_eq_zero (by omega)
+    subst this
+    rw [fadLoop_unfold]
+    have hsk : Ref.skipMatches b [] = [] := by
+      have := Ref.skipMatches_le b []
+      exact List.eq_nil_of_length_eq_zero (by simpa using this)
+    rw [hsk]; simp [Ref.getOp]
+  | succ n ih =>
+    intro s hs
+    rw [fadLoop_unfold]
+    have hsk := Ref.skipMatches_le b s
+    cases hg : Ref.getOp (Ref.skipMatches b s) with
+    | none => simpa using hsk
+    | some t =>
+      obtain ⟨opc, v, rest⟩ := t
+      have hlt := Ref.getOp_lt hg
+      have := ih rest (by omega)
+      simp only [List.length_append, List.length_take]
+      omega
+
+theorem ref_findAndDelete_length_le (s b : Bytes) : (Ref.findAndDelete s b).length ≤ s.length := by
+  unfold Ref.findAndDelete
+  split
+  · exact Nat.le_refl _
+  · exact fadLoop_length_le b s.length s (Nat.le_refl _)
+
+theorem findAndDelete_length_le {cap : Captured} {script b r : Bytes} (hb : PushPat b)
+    (h : findAndDelete cap script b = .ok r) : r.length ≤ script.length := by
+  rw [findAndDelete_eq cap script b hb] at h
+  split at h
+  · cases h
+  · simp only [Except.ok.injEq] at h
+    rw [← h]; exact ref_findAndDelete_length_le script b
+
 end BtcVerif.Model.ScriptEval
